@@ -158,7 +158,9 @@ def main():
                 rows[name] = {"obsolete": meta["obsolete"]}
                 continue
             ids = [meta["property"]] + [i for i in meta.get("also_check", [])]
-            rows[name] = detect(d, ids)
+            rows[name] = detect(d, ids, meta.get("detect_tier", "quick"))
+            if meta.get("detect_tier"):
+                rows[name]["tier"] = meta["detect_tier"]
             print(name, json.dumps(rows[name]), flush=True)
         mpath = os.path.join(root, "MATRIX.json")
         allrows = json.load(open(mpath)) if (only and os.path.exists(mpath)) else {}
